@@ -319,10 +319,10 @@ theorem arity_rejected_lenient (c p : State) (fa ci : Nat) (free : Option (List 
     exact ⟨_, callCompiled_variadic_arity_error fa args.length p _ free hcell hv (by omega)⟩
 
 /-- **prologue_eq_callbind.**  The whole entries: the child's `prologue` (`Run` up to the loop) and the
-    parent's `xOpCallCompiled` leave states related by the offset relation `ShB bp k NumLocals`
-    (Proofs/Shift.lean): same heap, code memory, constants, globals, module cache; `ip = -1` on both;
-    child frame 0 / base 0 / `sp = NumLocals` against parent frame k / base bp / `sp = bp + NumLocals`;
-    `child.stack[i] = parent.stack[bp+i]` for `i < NumLocals`. -/
+    parent's `xOpCallCompiled` leave states related by the offset relation `ShB bp k 0` (Proofs/Shift.lean,
+    depth 0: both are in the invoked function's own frame): same heap, code memory, constants, globals, module
+    cache; `ip = -1` on both; child frame 0 / base 0 / `sp = NumLocals` against parent frame k / base bp /
+    `sp = bp + NumLocals`; no handlers; `child.stack[i] = parent.stack[bp+i]` for `i < NumLocals`. -/
 theorem prologue_eq_callbind (c p : State) (fa ci : Nat) (free : Option (List Addr)) (args : List V)
     (hfn : p.heap[fa]? = some (.fn ci free))
     (hheap : c.heap = p.heap) (hcodes : c.codes = p.codes) (hconsts : c.consts = p.consts)
@@ -338,7 +338,7 @@ theorem prologue_eq_callbind (c p : State) (fa ci : Nat) (free : Option (List Ad
     (hnl : (p.codes[ci]!).numParams ≤ (p.codes[ci]!).numLocals) :
     ∃ c' p', exec (prologue p.globals args) c = (.ok (), c') ∧
       exec (callCompiled fa args.length 0) p = (.ok (.ok ()), p') ∧
-      ShB (p.sp - args.length).toNat p.frameIndex.toNat (p.codes[ci]!).numLocals c' p' :=
+      ShB (p.sp - args.length).toNat p.frameIndex.toNat 0 c' p' ∧ c'.sp = (p.codes[ci]!).numLocals :=
   entries_shifted c p fa ci free args hfn hheap hcodes hconsts hmods hnm hmain hfull hg herr hshc hshp hargs hacc hself
     hfi hbp hsp hroom hnl
 
@@ -353,7 +353,7 @@ def exP : State :=
     frameIndex := 1, globals := .undefined }
 
 example : ∃ c' p', exec (prologue exP.globals []) exP = (.ok (), c') ∧
-    exec (callCompiled 0 (([] : List V).length) 0) exP = (.ok (.ok ()), p') ∧ ShB 0 1 0 c' p' := by
+    exec (callCompiled 0 (([] : List V).length) 0) exP = (.ok (.ok ()), p') ∧ ShB 0 1 0 c' p' ∧ c'.sp = (0 : Nat) := by
   have hfr : (exP.frames[exP.curFrame]!).fn ≠ some 0 := by
     show (Array.replicate frameSize ({} : Frame))[0]!.fn ≠ some 0
     rw [emptyFrames_zero]; simp
@@ -370,63 +370,113 @@ theorem acquire_meets_prologue (root caller child : State) (fa : Addr)
     c.numModules = caller.numModules ∧ c.mainFn = fa := by
   simp [acquireFrom, hc, hm, hn]
 
-/-! ### `frame_shift_partial` -/
+/-! ### `frame_shift`: the simulation between the child and the callee's frames in the parent -/
 
-/-- **frame_shift_partial.**  One instruction of the child (frame 0, base 0) and one instruction of the
-    parent inside the callee's frame (frame k, base bp) from `ShB`-related states, when the fetched
-    opcode is one of the 36 `coveredOps` (all but CALL, CALLNAME, RETURN, THROW, SETUPTRY, SETUPCATCH,
-    SETUPFINALLY, FINALIZER) and, for GETLOCAL / SETLOCAL / GETLOCALPTR, its operand is below
-    `L = NumLocals`, for MAP its operand is even (`StepOk`): if both `step`s end normally then EITHER both continue (`.next`)
-    and the states are `ShB`-related again, OR the child's loop returns with `vm.err` set — an uGO
-    error raised by the instruction, which nobody in the (handler-free) callee catches.  No claim when a
-    side ends with a Go panic or leaves the modelled subset: the child has `bp` more stack slots and
-    `k` more frames than the callee's frame in the parent, so resource panics cannot coincide. -/
-theorem frame_shift_partial (F : FloatOps) (bp k L : Nat) (s t : State) (h : ShB bp k L s t) (hok : StepOk L s)
+/-- **frame_shift.**  One instruction — ANY opcode, all 44 of opcodes.go and unknown ones — of the child and of the
+    parent from `ShB bp k d`-related states: the invoked function runs in the child's frame 0 / base 0 and in the
+    parent's frame `k` / base `bp`; both VMs are `d ≥ 0` frames above it (nested calls), frame `j` of the child
+    corresponding to frame `k + j` of the parent: same function, free variables, saved `ip`, base pointer shifted
+    by `bp`, handler stacks equal up to the shift of the recorded `sp`; equal heap, code, constants, globals, module
+    cache, `ip`; `child.stack[i] = parent.stack[bp+i]` on a region containing both stack pointers.
+    Hypotheses: `StepOk` on the child's instruction (a local-slot operand addresses a slot below `sp`; MAP has an even
+    operand; CALL / CALLNAME have no spread argument) and `CallRoom` (when the instruction is a call, the PARENT has a
+    free frame: otherwise it answers StackOverflowError where the child still has `k` frames left).
+    If both `step`s end normally (Go panics / `unsupported` are not compared: the child has `bp` more stack slots)
+    then one of:
+    * both continue (`.next`) in `ShB bp k d'`-related states — `d' = d`, `d + 1` (CALL / CALLNAME of a compiled
+      function, also the running function itself; a self tail call reuses the frame: `d' = d`), `d - 1` (RETURN of a
+      nested call), or the depth of the frame whose handler caught a thrown error;
+    * the child's loop returns with `vm.err = e` (an uGO error no handler of the function's frame or of a frame above
+      it takes) and the parent's instruction ended as the frame search BELOW frame `k` ends (`EscQ`);
+    * both loops return with the same Go error (unknown opcode, malformed THROW operand);
+    * the invoked function RETURNed (`d = 0`): the child's loop returns without error, the parent is back in the
+      caller's frame `k - 1` with `sp = bp`, and `child.stack[sp-1] = parent.stack[sp-1]` (`RetQ`). -/
+theorem frame_shift (F : FloatOps) (bp k d : Nat) (hk : 1 ≤ k) (hbp : 1 ≤ bp) (s t : State) (h : ShB bp k d s t)
+    (hok : StepOk s) (hroom : CallRoom s t)
     (r r' : Ctl) (s' t' : State) (h1 : exec (step F) s = (.ok r, s')) (h2 : exec (step F) t = (.ok r', t')) :
-    (r = .next ∧ r' = .next ∧ ShB bp k L s' t') ∨ (r = .ret ∧ s'.err ≠ none) :=
-  UgoVerif.Proofs.Shift.frame_shift_partial F s t ⟨h, hok⟩ r s' r' t' h1 h2
+    (r = .next ∧ r' = .next ∧ ∃ d', ShB bp k d' s' t') ∨
+    (r = .ret ∧ ∃ e, s'.err = some (.rt e) ∧ EscQ k e r' s' t') ∨
+    (r = .ret ∧ r' = .ret ∧ (∃ m, s'.err = some (.goerr m) ∧ t'.err = some (.goerr m)) ∧
+      s'.heap = t'.heap ∧ s'.globals = t'.globals ∧ s'.modules = t'.modules) ∨
+    RetQ bp k r r' s' t' := by
+  rcases UgoVerif.Proofs.Shift.frame_shift F hk hbp s t ⟨h, hok, hroom⟩ r s' r' t' h1 h2 with (h | h | h) | h
+  · exact Or.inl h
+  · exact Or.inr (Or.inl h)
+  · exact Or.inr (Or.inr (Or.inl h))
+  · exact Or.inr (Or.inr (Or.inr h))
 
-/-- **steps_shift_partial.**  `frame_shift_partial` iterated over any number `n` of instructions
-    (`runSteps`: the loop body repeated; `CoveredRun`: every instruction the child executes on the way
-    satisfies `StepOk`): if neither VM panicked or left the model, both are still running in `ShB`-related
-    states — equal heap, globals, module cache, `child.stack[i] = parent.stack[bp+i]` — or the child has
-    stopped with `vm.err` set. -/
-theorem steps_shift_partial (F : FloatOps) (bp k L n : Nat) (s t : State) (h : ShB bp k L s t)
-    (hc : CoveredRun F L n s) (r r' : Ctl) (s' t' : State)
-    (h1 : runSteps F n s = some (r, s')) (h2 : runSteps F n t = some (r', t')) :
-    (r = .next ∧ r' = .next ∧ ShB bp k L s' t') ∨ (r = .ret ∧ s'.err ≠ none) :=
-  UgoVerif.Proofs.Shift.steps_shift_partial F n s t h hc r s' r' t' h1 h2
+/-- **throw_shift_partial** (the boundary of the simulation under a thrown error).  `vm.throw(e)` — from THROW, from the
+    re-throw after `finally`, from any failing instruction (`failWith`) — in `Sh`-related states, with ANY two fuels
+    (the model's `throwFuel` counts all frames, so the two sides get different ones).  If both end normally:
+    * a handler in the function's frame or in a frame above it takes the error ON BOTH SIDES: same handler, `ip`
+      set to its catch / finally position, `sp` reset to the `sp` it recorded (shifted by `bp` in the parent), the
+      frames above the handling frame dropped: `ShB bp k d'` again, `d'` the depth of the handling frame; or
+    * there is none: the child's `throw` returns `e` (→ `vm.err`, `Run` returns it to the Go caller) and the parent's
+      `throw` ended as `throwBelow n'' k e` — the search for a handler in frames `k-1, k-2, …, 0` — ends from a state
+      `u` with the child's heap, globals and module cache.  Below this boundary the two sides legitimately differ
+      (the Go caller of `Invoke` gets the error; the in-script caller's frames are searched). -/
+theorem throw_shift_partial (bp k d H N : Nat) (a : Int) (e : Addr) (n n' : Nat) (s t : State)
+    (h : Sh bp k d H N a s t) (ha : a ≤ N) (hH : H ≤ N) (r r' : Option Addr) (s' t' : State)
+    (h1 : exec (throwF n e) s = (.ok r, s')) (h2 : exec (throwF n' e) t = (.ok r', t')) :
+    (r = none ∧ r' = none ∧ ∃ d', ShB bp k d' s' t') ∨
+    (r = some e ∧ s'.err = none ∧ ∃ n'' u, u.heap = s'.heap ∧ u.globals = s'.globals ∧ u.modules = s'.modules ∧
+      u.err = none ∧ exec (throwBelow n'' k e) u = (.ok r', t')) :=
+  sh_throwF e n n' d H N a ha hH s t h r s' r' t' h1 h2
 
-/-- **return_shift.**  The RETURN of the callee from `ShB`-related states (`bp ≥ 1`, `k ≥ 1`; the fetched
-    opcode is RETURN): if both `step`s end normally, the child's loop returns (`.ret`, `vm.err` unset,
-    `frameIndex = 1`) and the parent continues in its caller's frame (`frameIndex = k`, `sp = bp`); heap,
-    globals and module cache are equal; and the slot the child's `Run` reads its result from,
-    `child.stack[sp-1]`, holds the same value as the slot where the parent's caller finds the call's
-    value, `parent.stack[sp-1]` (= the callee's slot `bp-1`). -/
-theorem return_shift (F : FloatOps) (bp k L : Nat) (hk : 1 ≤ k) (hbp : 1 ≤ bp) (s t : State) (h : ShB bp k L s t)
-    (hop : ∀ op s1, exec fetchOp s = (.ok op, s1) → op = OpReturn)
-    (r r' : Ctl) (s' t' : State) (h1 : exec (step F) s = (.ok r, s')) (h2 : exec (step F) t = (.ok r', t')) :
-    r = .ret ∧ r' = .next ∧ s'.heap = t'.heap ∧ s'.globals = t'.globals ∧ s'.modules = t'.modules ∧
+/-- **steps_shift.**  `frame_shift` iterated while the child's loop goes on: after `m` instructions of the child that
+    all continued, the parent (if it did not panic / leave the model) also continued `m` times and the states are
+    related again (at some depth). -/
+theorem steps_shift (F : FloatOps) (bp k : Nat) (hk : 1 ≤ k) (hbp : 1 ≤ bp) (m j : Nat) (s t : State)
+    (h : ∃ d, ShB bp k d s t) (hok : OkRun F (m + j) s t)
+    (s0 : State) (h1 : runSteps F m s = some (.next, s0)) (r0 : Ctl) (t0 : State) (h2 : runSteps F m t = some (r0, t0)) :
+    r0 = .next ∧ (∃ d, ShB bp k d s0 t0) ∧ OkRun F j s0 t0 :=
+  UgoVerif.Proofs.Shift.steps_shift F hk hbp m j s t h hok s0 h1 r0 t0 h2
+
+/-- **invoke_eq_call_partial.**  The whole run of the invoked function.  `c` is the child as `_acquire` left it, `p` the
+    parent with callee and `args` on its stack (hypotheses of `prologue_eq_callbind`; `1 ≤ frameIndex`: the parent is
+    inside `Run`; `1 ≤ sp - #args`: the callee value lies below the arguments).  Both entries succeed; and for every
+    number of instructions `n` (`OkRun`: every instruction met on the way satisfies `StepOk` / `CallRoom`): if the
+    child's loop ENDS within `n` instructions — at its instruction `m + 1`, in state `c'` — then the parent, unless
+    it panicked / left the model before, is still running after `m` instructions, and its instruction `m + 1` ends
+    as `EndQ` says:
+    * the function returned: `c'.err = none`, the parent is back in the caller's frame (`frameIndex = k`,
+      `sp = bp`), equal heap / globals / module cache, and the slot `Run` reads its result from holds the value the
+      in-script caller finds in the call's slot (`result_value_deref` for the epilogue's dereference); or
+    * an error `e` left the function: `c'.err = e` (what `Invoke` returns) and the parent's instruction — the same
+      throwing instruction — ended as the handler search below frame `k` ends from a state with the child's heap,
+      globals and module cache (`EscQ`): the same error thrown at the call instruction of the caller; or
+    * both loops stopped with the same Go error (malformed bytecode). -/
+theorem invoke_eq_call_partial (F : FloatOps) (c p : State) (fa ci : Nat) (free : Option (List Addr)) (args : List V)
+    (hfn : p.heap[fa]? = some (.fn ci free))
+    (hheap : c.heap = p.heap) (hcodes : c.codes = p.codes) (hconsts : c.consts = p.consts)
+    (hmods : c.modules = p.modules) (hnm : c.numModules = p.numModules) (hmain : c.mainFn = fa)
+    (hfull : p.numModules ≤ p.modules.size) (hg : p.globals ≠ .nil) (herr : p.err = none)
+    (hshc : Shape c) (hshp : Shape p)
+    (hargs : argsOnStack p args.length = args)
+    (hacc : accepted (p.codes[ci]!).numParams (p.codes[ci]!).variadic args.length)
+    (hself : (p.frames[p.curFrame]!).fn ≠ some fa)
+    (hfi : 1 ≤ p.frameIndex ∧ p.frameIndex + 1 ≤ (frameSize : Int) - 1)
+    (hbp : 1 ≤ p.sp - args.length) (hsp : p.sp ≤ (stackSize : Int))
+    (hroom : p.sp - args.length + (p.codes[ci]!).numLocals ≤ (stackSize : Int))
+    (hnl : (p.codes[ci]!).numParams ≤ (p.codes[ci]!).numLocals) :
+    ∃ c0 p0, exec (prologue p.globals args) c = (.ok (), c0) ∧
+      exec (callCompiled fa args.length 0) p = (.ok (.ok ()), p0) ∧
+      ∀ n, OkRun F n c0 p0 → ∀ c', runSteps F n c0 = some (.ret, c') →
+        ∃ m cm, m < n ∧ runSteps F m c0 = some (.next, cm) ∧ exec (step F) cm = (.ok .ret, c') ∧
+          ∀ r0 pm, runSteps F m p0 = some (r0, pm) → r0 = .next ∧
+            ∀ r' p', exec (step F) pm = (.ok r', p') →
+              EndQ (p.sp - args.length).toNat p.frameIndex.toNat r' c' p' := by
+  obtain ⟨c0, p0, h1, h2, hsh, _⟩ := prologue_eq_callbind c p fa ci free args hfn hheap hcodes hconsts hmods hnm hmain hfull hg
+    herr hshc hshp hargs hacc hself ⟨by omega, hfi.2⟩ (by omega) hsp hroom hnl
+  refine ⟨c0, p0, h1, h2, ?_⟩
+  intro n hok c' hc'
+  exact UgoVerif.Proofs.Shift.invoke_eq_call_partial F (by omega) (by omega) n c0 p0 ⟨0, hsh⟩ hok c' hc'
+
+/-- what `EndQ` says when the function returned, spelled out (`return_shift`) -/
+theorem return_shift (bp k : Nat) (r' : Ctl) (s' t' : State) (h : RetQ bp k .ret r' s' t') :
+    r' = .next ∧ s'.heap = t'.heap ∧ s'.globals = t'.globals ∧ s'.modules = t'.modules ∧
     s'.err = none ∧ t'.err = none ∧ s'.frameIndex = 1 ∧ t'.frameIndex = k ∧ t'.sp = bp ∧ 1 ≤ s'.sp ∧
-    s'.stack[(s'.sp - 1).toNat]! = t'.stack[(t'.sp - 1).toNat]! :=
-  UgoVerif.Proofs.Shift.return_shift F hk hbp s t ⟨h, hop⟩ r s' r' t' h1 h2
-
-/-- **call_return_partial.**  A whole body inside the covered fragment: `n` covered instructions followed by
-    the callee's RETURN.  From `ShB`-related states (as `prologue_eq_callbind` provides), if neither VM panics
-    or leaves the model and the child meets no uGO error on the way, then after the RETURN the child's loop
-    has returned without error, the parent is back in its caller's frame, heap, globals and module cache are
-    equal, and the child's result slot equals the parent's call-value slot. -/
-theorem call_return_partial (F : FloatOps) (bp k L n : Nat) (hk : 1 ≤ k) (hbp : 1 ≤ bp) (s t : State)
-    (h : ShB bp k L s t) (hc : CoveredRun F L n s) (s1 t1 : State) (r1 : Ctl)
-    (h1 : runSteps F n s = some (.next, s1)) (h2 : runSteps F n t = some (r1, t1))
-    (hop : ∀ op u, exec fetchOp s1 = (.ok op, u) → op = OpReturn)
-    (r r' : Ctl) (s' t' : State) (h3 : exec (step F) s1 = (.ok r, s')) (h4 : exec (step F) t1 = (.ok r', t')) :
-    r = .ret ∧ r' = .next ∧ s'.heap = t'.heap ∧ s'.globals = t'.globals ∧ s'.modules = t'.modules ∧
-    s'.err = none ∧ t'.err = none ∧ s'.frameIndex = 1 ∧ t'.frameIndex = k ∧ t'.sp = bp ∧ 1 ≤ s'.sp ∧
-    s'.stack[(s'.sp - 1).toNat]! = t'.stack[(t'.sp - 1).toNat]! := by
-  rcases steps_shift_partial F bp k L n s t h hc .next r1 s1 t1 h1 h2 with ⟨_, _, hsh⟩ | ⟨hr, _⟩
-  · exact return_shift F bp k L hk hbp s1 t1 hsh hop r r' s' t' h3 h4
-  · cases hr
+    s'.stack[(s'.sp - 1).toNat]! = t'.stack[(t'.sp - 1).toNat]! := h.2
 
 /-- **result_value_deref** (the epilogue).  `Run` returns `stack[sp-1]` unless it is an `*ObjectPtr`, which
     it dereferences (vm.go:166-170) — the in-script caller gets the slot value as it is.  So after
@@ -441,29 +491,45 @@ theorem result_value_deref (s : State) (hsp : 1 ≤ s.sp ∧ s.sp ≤ (stackSize
   ⟨resultValue_of_slot s hsp, fun a w hv hw => resultValue_of_box s hsp a w hv hw⟩
 
 /-- what `ShB` says about the observable state: same heap, globals and module cache -/
-theorem shB_observables (bp k L : Nat) (s t : State) (h : ShB bp k L s t) :
+theorem shB_observables (bp k d : Nat) (s t : State) (h : ShB bp k d s t) :
     s.heap = t.heap ∧ s.globals = t.globals ∧ s.modules = t.modules ∧ s.ip = t.ip ∧ t.sp = s.sp + bp := by
-  obtain ⟨N, a, h, _, _⟩ := h
+  obtain ⟨H, N, a, h, _, _⟩ := h
   exact ⟨h.heap, h.globals, h.modules, h.ip, by rw [h.spT, h.spS]⟩
 
-/-- the opcode list of `frame_shift_partial`, by number (opcodes.go) -/
+/-- the opcodes that touch neither frames nor handlers (Proofs/ShiftOps), by number (opcodes.go); the other eight —
+    CALL 2, CALLNAME 43, RETURN 39, THROW 37, SETUPTRY 34, SETUPCATCH 35, SETUPFINALLY 36, FINALIZER 38 — are in
+    Proofs/ShiftCall, ShiftRet, ShiftTry -/
 theorem coveredOps_eq : coveredOps =
     [0, 1, 3, 4, 5, 6, 7, 8, 9, 10, 11, 12, 13, 14, 15, 17, 18, 20, 21, 22, 23, 24, 25, 26, 27, 28, 29, 30, 31, 32, 33,
      40, 41, 42, 16, 19] := by decide
 
-/-- non-vacuity of `ShB`: a VM at `frameIndex = 1` is related to itself with `bp = 0`, `k = 0` -/
+theorem exFrames : ∀ j : Nat, j ≤ 0 → FrameSh 0 0 (({ newState #[] #[] #[] 0 0 with frameIndex := 1 } : State).frames[j]!)
+    (({ newState #[] #[] #[] 0 0 with frameIndex := 1 } : State).frames[0 + j]!) := by
+  intro j hj
+  have : j = 0 := by omega
+  subst this
+  show FrameSh 0 0 (Array.replicate frameSize ({} : Frame))[0]! (Array.replicate frameSize ({} : Frame))[0 + 0]!
+  rw [Nat.add_zero, emptyFrames_zero]
+  exact ⟨rfl, rfl, rfl, trivial, rfl, Int.le_refl _⟩
+
+theorem exSh : Sh 0 0 0 0 0 0 ({ newState #[] #[] #[] 0 0 with frameIndex := 1 } : State)
+    ({ newState #[] #[] #[] 0 0 with frameIndex := 1 } : State) :=
+  { heap := rfl, codes := rfl, consts := rfl, globals := rfl, modules := rfl, numModules := rfl, ip := rfl,
+    spS := rfl, spT := rfl, curS := rfl, curT := rfl, fiS := rfl, fiT := rfl, errS := rfl, errT := rfl,
+    shapeS := ⟨by simp [newState], by simp [newState, emptyFrames]⟩,
+    shapeT := ⟨by simp [newState], by simp [newState, emptyFrames]⟩,
+    kLt := by decide,
+    frames := exFrames,
+    ips := fun j hj => (by omega),
+    bp0 := (by show (Array.replicate frameSize ({} : Frame))[0]!.bp = 0; rw [emptyFrames_zero]),
+    bpPos := fun j h1 hj => (by omega),
+    stack := fun i hi => (by omega),
+    room := (by decide) }
+
+/-- non-vacuity of `ShB`: a VM at `frameIndex = 1` is related to itself with `bp = 0`, `k = 0`, depth 0 -/
 example : ShB 0 0 0 ({ newState #[] #[] #[] 0 0 with frameIndex := 1 } : State)
     ({ newState #[] #[] #[] 0 0 with frameIndex := 1 } : State) :=
-  ⟨0, 0, { heap := rfl, codes := rfl, consts := rfl, globals := rfl, modules := rfl, numModules := rfl, ip := rfl,
-           spS := rfl, spT := rfl, curS := rfl, curT := rfl, fiS := rfl, fiT := rfl, errS := rfl, errT := rfl,
-           shapeS := ⟨by simp [newState], by simp [newState, emptyFrames]⟩,
-           shapeT := ⟨by simp [newState], by simp [newState, emptyFrames]⟩,
-           kLt := by decide,
-           frame := ⟨rfl, rfl, by show (Array.replicate frameSize ({} : Frame))[0]!.bp = 0; rw [emptyFrames_zero],
-                     by show (Array.replicate frameSize ({} : Frame))[0]!.bp = 0; rw [emptyFrames_zero],
-                     by show (Array.replicate frameSize ({} : Frame))[0]!.handlers = none; rw [emptyFrames_zero],
-                     by show (Array.replicate frameSize ({} : Frame))[0]!.handlers = none; rw [emptyFrames_zero], rfl⟩,
-           stack := fun i hi => by omega }, Int.le_refl _, Nat.le_refl _⟩
+  ⟨0, 0, 0, exSh, Int.le_refl _, Nat.le_refl _⟩
 
 /-- The full statement of C14 over the model (NOT proved): for every function value `fa`, every
     accepted argument list, every pool history `w` and every caller state `s` whose module cache
@@ -472,9 +538,12 @@ example : ShB 0 0 0 ({ newState #[] #[] #[] 0 0 with frameIndex := 1 } : State)
     the module cache that the in-script call `CALL numArgs 0` of `fa` from frame k of the caller
     yields when run to the matching RETURN.  Proved parts: `acquire_complete`, `release_zeroes`,
     `pool_fresh`, `pool_acquire_eq_new`, `pool_release_inv`, `acquire_fields`, `initLocals_eq_callbind`,
-    `prologue_eq_callbind` (the entries), `frame_shift_partial` (one covered instruction).  Missing:
-    CALL / RETURN / THROW and the handler opcodes, the iteration of `frame_shift_partial`
-    over the loop, the epilogue (`resultValue`, `invResOf`) and the host-aware loop `loopI`; as stated
+    `prologue_eq_callbind` (the entries), `frame_shift` (one instruction, every opcode), `throw_shift_partial`,
+    `steps_shift`, `invoke_eq_call_partial` (the run of the function up to and including the instruction that ends
+    it), `result_value_deref`.  Missing: spread calls (`flags ≠ 0`), host-function callees and imports (the
+    host-aware loop `loopI`), the abort flag and the `recover` wrapper of `Run` (`runFrom.go`), `iterInvoke`
+    plumbing (`mergeBack`, pool, `invResOf`), and — below the boundary — that the parent's unwinding from frame
+    `k - 1` equals what `failWith` does in the caller when `Invoke` returns the error (live parts only); as stated
     (no resource hypothesis) it is false at the stack / frame limits, where the child has more room. -/
 def C14_full : Prop :=
   ∀ (F : FloatOps) (cfg : HostCfg) (root s : State) (w : World) (fa : Addr) (args : List V) (depth fuel : Nat),
